@@ -19,7 +19,8 @@ PROP = Prop(
         "negative centre weight; filter: the real UnscentedKalmanFilter with real two-body dynamics and real Measurement objects "
         "(az/el and az/el/range/range-rate, real angular flags), geometry from a ground site, turn offsets m*2pi with m in -5..5, "
         "wrap-point offsets that put the predicted azimuth/elevation on or next to the 0/2pi and +-pi seams, permutations of up to "
-        "four stacked observations of mixed kinds. Non-trivial = value within 1e-6 of a seam, |m| >= 1, or a non-identity "
+        "four stacked observations of mixed kinds; in half of the cases the same filter object first processes an earlier update "
+        "with another measurement layout (random, or the same stacked dimension arranged differently). Non-trivial = value within 1e-6 of a seam, |m| >= 1, or a non-identity "
         "permutation; distinct by rounded inputs."
     ),
     assumptions=[
@@ -230,7 +231,7 @@ def _scene(c):
     k = k / np.linalg.norm(k)
     tgt[3:] = math.sqrt(398600.4415 / np.linalg.norm(r)) * k
     sensors = [ecef2eci(site, EPOCH)]
-    for dlat, dlon in ((0.05, 0.03), (-0.04, 0.06), (0.02, -0.07)):
+    for dlat, dlon in ((0.05, 0.03), (-0.04, 0.06), (0.02, -0.07), (0.06, -0.02), (-0.03, -0.05)):
         sensors.append(ecef2eci(lla2ecef(np.array([lat + dlat, lon + dlon, 0.2])), EPOCH))
     return tgt, sensors
 
@@ -245,7 +246,7 @@ def _build_filter(x0, alpha, resample):
     return UnscentedKalmanFilter(4242, ScenarioTime(0.0), np.array(x0, dtype=float), p0, TwoBody(), q, resample=resample, alpha=alpha)
 
 
-def _obs(kind, sensor_eci, truth, jd, daz=0.0, d_el=0.0, turn_az=0, turn_el=0, sid=1):
+def _obs(kind, sensor_eci, truth, jd, daz=0.0, d_el=0.0, turn_az=0, turn_el=0, sid=1, when=None):
     from resonaate.data.observation import Observation
     from resonaate.physics.measurements import Measurement, Range, RangeRate
 
@@ -257,7 +258,7 @@ def _obs(kind, sensor_eci, truth, jd, daz=0.0, d_el=0.0, turn_az=0, turn_el=0, s
         types = [shifted_az(daz), shifted_el(d_el), Range(), RangeRate()]
         r = np.diag([1e-8, 1e-8, 1e-4, 1e-8])
     meas = Measurement(types, r)
-    vals = meas.calculateMeasurement(sensor_eci, truth, EPOCH_T, noisy=False)
+    vals = meas.calculateMeasurement(sensor_eci, truth, when or EPOCH_T, noisy=False)
     vals["azimuth_rad"] = vals["azimuth_rad"] + TWOPI * turn_az
     vals["elevation_rad"] = vals["elevation_rad"] + TWOPI * turn_el
     return Observation(julian_date=jd, sensor_id=sid, target_id=4242, sensor_type="Optical" if kind == "optical" else "Radar",
@@ -277,20 +278,49 @@ def _posterior(c, obs_builder):
     # one prediction step over zero-ish time is not allowed (final > initial): propagate the estimate back first
     from vf.oracles import kepler
 
-    f.est_x = kepler.propagate(tgt, -c["dt"])
-    truth0 = truth
-    f.predict(ScenarioTime(c["dt"]))
-    observations = obs_builder(sensors, truth0, jd)
+    pre = _pre_kinds(c)
+    dt = c["dt"]
+    if not pre:
+        f.est_x = kepler.propagate(tgt, -dt)
+        f.predict(ScenarioTime(dt))
+    else:
+        # an earlier update of the SAME filter object with another measurement layout (identical in every compared run)
+        from datetime import timedelta
+
+        f.est_x = kepler.propagate(tgt, -2 * dt)
+        f.predict(ScenarioTime(dt))
+        truth_pre = kepler.propagate(truth, -dt)
+        when = EPOCH - timedelta(seconds=dt)
+        f.update([_obs(k, sensors[i], truth_pre, jd - dt / 86400.0, sid=i + 1, when=when) for i, k in enumerate(pre)])
+        f.predict(ScenarioTime(2 * dt))
+    observations = obs_builder(sensors, truth, jd)
     f.update(observations)
     return f
+
+
+def _pre_kinds(c):
+    """Layout of the earlier update: none, random, or the same stacked dimension as the compared update in another arrangement."""
+    mode = c.get("pre_mode", 0)
+    kinds = list(c["kinds"])
+    if mode == 0:
+        return []
+    if mode == 1:
+        return list(c.get("pre_kinds", ["radar"]))
+    if "radar" in kinds:
+        i = kinds.index("radar")
+        out = kinds[:i] + ["optical", "optical"] + kinds[i + 1:]
+        return out if mode == 2 or out == out[::-1] else out[::-1]
+    if kinds.count("optical") >= 2:
+        return ["radar"] + kinds[2:]
+    return kinds[::-1]
 
 
 def _filter_cases():
     site = st.tuples(st.floats(-1.2, 1.2), st.floats(-PI, PI))
     return st.builds(
-        lambda s, az, el, rho, err, alpha, resample, dt, m_az, m_el, eps, kinds, perm, which:
+        lambda s, az, el, rho, err, alpha, resample, dt, m_az, m_el, eps, kinds, perm, which, pre_mode, pre_kinds:
         {"lat": s[0], "lon": s[1], "az": az, "el": el, "rho": rho, "err": err, "alpha": alpha, "resample": resample, "dt": dt,
-         "m_az": m_az, "m_el": m_el, "eps": eps, "kinds": kinds, "perm": perm, "which": which},
+         "m_az": m_az, "m_el": m_el, "eps": eps, "kinds": kinds, "perm": perm, "which": which, "pre_mode": pre_mode, "pre_kinds": pre_kinds},
         site,
         st.one_of(st.floats(0, TWOPI, exclude_max=True), st.sampled_from([0.0, 1e-7, TWOPI - 1e-7, PI, PI / 2])),
         st.floats(0.2, 1.3), st.floats(800.0, 30000.0),
@@ -298,7 +328,8 @@ def _filter_cases():
         st.sampled_from([1.0, 0.5, 0.05, 1e-3]), st.booleans(), st.sampled_from([10.0, 60.0]),
         st.integers(-5, 5), st.integers(-5, 5), st.sampled_from([0.0, 1e-9, -1e-9, 1e-6, -1e-6, 1e-4, -1e-4, 0.3]),
         st.lists(st.sampled_from(["optical", "radar"]), min_size=1, max_size=4),
-        st.permutations([0, 1, 2, 3]), st.sampled_from(["az", "el", "both"]))
+        st.permutations([0, 1, 2, 3]), st.sampled_from(["az", "el", "both"]),
+        st.sampled_from([0, 0, 1, 2, 3]), st.lists(st.sampled_from(["optical", "radar"]), min_size=1, max_size=4))
 
 
 def _tols(f):
@@ -316,10 +347,10 @@ def _compare(label, fa, fb, rec, what):
     dP = float(np.abs(fa.est_p - fb.est_p).max() / max(1e-300, np.abs(fa.pred_p).max()))
     rec.err(label + "_pos_km_per_w0", dp / g)
     rec.err(label + "_cov_rel_per_w0", dP / g)
-    # calibration: worst rounding-level differences seen on the unchanged tree over ~1e4 cases are 4e-10 km and 1.2e-10 (cov, rel.
-    # to the prior) per unit |w0|; tolerances are >= 80x that; the mildest mutants (unwrapped residual, arithmetic mean at
+    # calibration: worst rounding-level differences seen on the unchanged tree over ~1e4 cases are 4e-10 km and 1e-9 (cov, rel.
+    # to the prior; the larger values occur after an earlier update) per unit |w0|; tolerances are >= 100x that; the mildest mutants (unwrapped residual, arithmetic mean at
     # the seam) change the posterior by km / O(1) relative
-    if dp > tp * 1e3 or dv > tv * 1e3 or dP > 1e-8 * g:
+    if dp > tp * 1e3 or dv > tv * 1e3 or dP > 1e-7 * g:
         raise Violation(label, f"{what}: posterior differs by {dp:.3e} km, {dv:.3e} km/s, covariance rel {dP:.3e} (|w0|={g:.3g})")
 
 
@@ -340,8 +371,9 @@ def ukf_representation(c, rec):
     if np.any(~((innov[ang] > -PI) & (innov[ang] <= PI))):
         raise Violation("innovation_range", f"angular innovation outside (-pi, pi]: {innov[ang].tolist()}")
     if c["m_az"] or c["m_el"] or abs(c["eps"]) < 1e-3:
-        rec.nontrivial([round(c["az"], 3), c["m_az"], c["m_el"], c["eps"], c["alpha"], c["resample"], tuple(kinds), c["which"]])
+        rec.nontrivial([round(c["az"], 3), c["m_az"], c["m_el"], c["eps"], c["alpha"], c["resample"], tuple(kinds), c["which"], c.get("pre_mode", 0)])
     rec.label("resample" if c["resample"] else "no_resample")
+    rec.label(f"earlier_update:{('none', 'random_layout', 'same_dim_other_layout', 'same_dim_other_layout')[c.get('pre_mode', 0)]}")
     # (1) whole turns on the reported angles
     turned = _posterior(c, builder(turn_az=c["m_az"], turn_el=c["m_el"]))
     _compare("turns", base, turned, rec, f"adding {c['m_az']} turns to azimuth and {c['m_el']} to elevation measurements")
@@ -382,8 +414,10 @@ def ukf_permutation(c, rec):
         return b
 
     cc = dict(c)
+    cc["kinds"] = kinds
     base = _posterior(cc, builder(list(range(n))))
     other = _posterior(cc, builder(perm))
     if perm != list(range(n)):
-        rec.nontrivial([tuple(kinds), tuple(perm), c["alpha"], c["resample"], round(c["az"], 2)])
+        rec.nontrivial([tuple(kinds), tuple(perm), c["alpha"], c["resample"], round(c["az"], 2), c.get("pre_mode", 0)])
+    rec.label(f"earlier_update:{('none', 'random_layout', 'same_dim_other_layout', 'same_dim_other_layout')[c.get('pre_mode', 0)]}")
     _compare("permutation", base, other, rec, f"reordering observations {kinds} by {perm}")
